@@ -208,22 +208,22 @@ func TestVerifC20(t *testing.T) {
 		cfg  func(r *kit.Rand) (genCfg, layoutCfg)
 	}
 	families := []family{
-		{"valid-plain", kit.N(1300, 25000), func(r *kit.Rand) (genCfg, layoutCfg) {
+		{"valid-plain", kit.N(1150, 22000), func(r *kit.Rand) (genCfg, layoutCfg) {
 			lc := layoutCfg{mode: layCommon, commentP: kit.Choose(r, []float64{0, 0.1, 0.3, 0.6})}
 			if r.Chance(0.1) {
 				lc.mode = layCanonical
 			}
 			return genCfg{maxStmts: r.Range(1, 8), maxFields: r.Range(1, 8), maxDepth: 2, maxTypeNst: 3}, lc
 		}},
-		{"valid-odd-literals", kit.N(750, 14000), func(r *kit.Rand) (genCfg, layoutCfg) {
+		{"valid-odd-literals", kit.N(650, 12000), func(r *kit.Rand) (genCfg, layoutCfg) {
 			return genCfg{maxStmts: r.Range(1, 6), maxFields: r.Range(1, 6), maxDepth: 2, maxTypeNst: 3, oddNames: true, oddStrings: true, multiRaw: r.Chance(0.3)},
 				layoutCfg{mode: layCommon, commentP: kit.Choose(r, []float64{0.1, 0.3, 0.5}), oddText: true, multiBlk: true, crlf: r.Chance(0.1)}
 		}},
-		{"valid-exotic-layout", kit.N(750, 14000), func(r *kit.Rand) (genCfg, layoutCfg) {
+		{"valid-exotic-layout", kit.N(650, 12000), func(r *kit.Rand) (genCfg, layoutCfg) {
 			return genCfg{maxStmts: r.Range(1, 6), maxFields: r.Range(1, 6), maxDepth: 3, maxTypeNst: 4},
 				layoutCfg{mode: layExotic, commentP: kit.Choose(r, []float64{0, 0.1, 0.3}), multiBlk: r.Bool(), crlf: r.Chance(0.1), semis: r.Bool()}
 		}},
-		{"valid-declares-nothing", kit.N(400, 7000), func(r *kit.Rand) (genCfg, layoutCfg) {
+		{"valid-declares-nothing", kit.N(350, 6000), func(r *kit.Rand) (genCfg, layoutCfg) {
 			return genCfg{maxStmts: r.Range(1, 6), maxFields: r.Range(1, 5), maxDepth: 2, maxTypeNst: 3, degenerate: true},
 				layoutCfg{mode: layCommon, commentP: kit.Choose(r, []float64{0, 0.2})}
 		}},
@@ -252,7 +252,7 @@ func TestVerifC20(t *testing.T) {
 
 	// ---- invalid variants: token-level mutations of generated programs
 	const perCase = 20
-	kit.Run(t, "C20", "mutants-token", kit.N(280, 5500), func(c *kit.Case) {
+	kit.Run(t, "C20", "mutants-token", kit.N(250, 5000), func(c *kit.Case) {
 		p := generate(c.R, genCfg{maxStmts: c.R.Range(1, 4), maxFields: c.R.Range(1, 4), maxDepth: 2, maxTypeNst: 3, degenerate: c.R.Chance(0.2)})
 		for k := 0; k < perCase; k++ {
 			src, mut := mutateTokens(p, c.R)
@@ -275,7 +275,7 @@ func TestVerifC20(t *testing.T) {
 	})
 
 	// ---- invalid variants: byte-level mutations of generated programs and corpus files
-	kit.Run(t, "C20", "mutants-byte", kit.N(230, 4500), func(c *kit.Case) {
+	kit.Run(t, "C20", "mutants-byte", kit.N(200, 4000), func(c *kit.Case) {
 		var base string
 		if c.R.Chance(0.3) {
 			base = kit.Choose(c.R, corpus).src
